@@ -81,7 +81,7 @@ type Plan struct {
 	// ReuseKey[i]: task i keeps one key buffer, refills it before every Garble and passes that same
 	// slice (the usual `var key [32]byte; for { rand.Read(key[:]); Garble(...) }`)
 	ReuseKey []bool
-	Want   [][]*big.Int
+	Want     [][]*big.Int
 }
 
 // Draw draws a plan from the tape.
@@ -95,6 +95,9 @@ func DrawTier(t *rt.Tape, tier string) *Plan {
 		mg = 400
 	}
 	p.Circ = gen.Circuit(t, gen.CircuitOpts{MaxGates: mg, MaxIn: 10, MaxOutW: 6})
+	if t.Choose(rt.SGen, 8) == 0 {
+		p.Circ.Stats = circuit.Stats{} // a circuit built by hand: the gate statistics were never filled in
+	}
 	k := 2 + t.Choose(rt.SGen, 5)
 	for i := 0; i < k; i++ {
 		n := 1 + t.Choose(rt.SGen, 10)
